@@ -1236,6 +1236,11 @@ def mk_events(rng, auth, quietfirst):
     if r < 0.9:
         good = auth if (auth and rng.random() < 0.85) else None
         req = mk_req(rng, tunnel, good)
+        if not tunnel and rng.random() < 0.08:
+            # an upgrade offer in the FIRST request does not switch the connection to raw relay
+            req['v'] = 'HTTP/1.1'
+            req['h'] = [h for h in req['h'] if not h.lower().startswith('connection')] + rng.choice(
+                [['Connection: Upgrade', 'Upgrade: websocket'], ['Connection: keep-alive, Upgrade', 'Upgrade: h2c']])
         if auth and not good and rng.random() < 0.5:
             req['h'].append('Proxy-Authorization: Basic d3Jvbmc6Y3JlZHM=')
         ev = ['F', req, rng.random() < 0.9, mk_cuts(rng, len(req_bytes(req)))]
